@@ -38,6 +38,12 @@ CHECKS = {
   "generated variables with exactly the generated text, execute nothing and create no canary. Held on the strings generated, not a proof over all strings.",
   "Trusts dash, bash and strace; NUL-free valid UTF-8 only; names the shell treats specially are checked syntactically only.",
   "DESIGN.md §5 C17"),
+ "C04": ("exploration",
+  "reference-model + algebraic-law monitor: ref.Merge on a pure value model, identities, operand immutability observed in the same evaluation, N-file fold through the real binary",
+  "Pairs of nested maps with forced key overlap/kind switches x the 16 flag subsets go through the real `*` operator; result == reference merge, a*{}=={}*a==a*a==a, "
+  "`[(.a*.b), .a, .b]` and `(.a*.b) as $m | .` leave the operands as they were, and `yq ea '. as $i ireduce ({}; . * $i)' f1..fN` equals the left fold. Held on the cases generated.",
+  "The region the property leaves open (kind conflict combined with + ? n) is skipped; `+d` together is asserted as observed.",
+  "DESIGN.md §5 C04"),
  "C09": ("exploration",
   "metamorphic parser monitor: minimal-parenthesis vs fully parenthesised vs layout-varied spellings of generated ASTs must parse to the same tree and evaluate to the same bytes; broken token lists must be rejected; live precedence table == frozen table (verif hook)",
   "Every ordered pair of binary operators (882-cell matrix) is forced through the real lexer, shunting-yard and tree builder; trees are compared modulo re-association of "
